@@ -342,6 +342,15 @@ func (e *functionEntry) resolveArgs(arguments []interface{}) ([]interface{}, err
 	if len(arguments) < len(e.arguments) {
 		return nil, errors.New("invalid arity")
 	}
+	for i, userArg := range arguments {
+		spec := e.arguments[len(e.arguments)-1]
+		if i < len(e.arguments) {
+			spec = e.arguments[i]
+		}
+		if err := spec.typeCheck(userArg); err != nil {
+			return nil, err
+		}
+	}
 	return arguments, nil
 }
 
